@@ -1600,7 +1600,20 @@ return 1;""",
             if need_blank0:
                 result_pre_call.extend(["", "// result pre_call"])
             result_pre_call.extend(result_blk.pre_call)
+        post_declare_hoist = 0
         if found_default:
+            # The locals of the arguments before the first default
+            # argument are always needed and code after the switch
+            # refers to them (intent(out) std::string, std::vector,
+            # struct); declare them once before the switch instead of
+            # inside the scope of each case.
+            post_declare_hoist = default_calls[0][1]
+            if post_declare_hoist:
+                if options.debug:
+                    if need_blank:
+                        PY_code.append("")
+                    PY_code.append("// post_declare")
+                PY_code.extend(post_declare_code[:post_declare_hoist])
             # Once before all default argument cases; the locals of
             # each case are in their own scope.
             PY_code.extend(result_pre_call)
@@ -1634,7 +1647,8 @@ return 1;""",
                 PY_code.append("case %d:" % npyargs)
                 PY_code.append(1)
                 need_blank = False
-                if post_declare_len or post_parse_len or pre_call_len \
+                if post_declare_len > post_declare_hoist \
+                   or post_parse_len or pre_call_len \
                    or implied_code:
                     # Only add scope if necessary.
                     # There may be declarations in these code blocks.
@@ -1646,12 +1660,13 @@ return 1;""",
                 else:
                     extra_scope = False
 
-            if post_declare_len:
+            if post_declare_len > post_declare_hoist:
                 if options.debug:
                     if need_blank:
                         PY_code.append("")
                     PY_code.append("// post_declare")
-                PY_code.extend(post_declare_code[:post_declare_len])
+                PY_code.extend(
+                    post_declare_code[post_declare_hoist:post_declare_len])
                 need_blank = True
 
             if post_parse_len:
